@@ -207,4 +207,20 @@ func init() {
 		Technique: "runtime monitoring: structure-aware corruption + crash/CPU/allocation monitors, differential over stream chunkings, exhaustive I/O fault-position injection",
 		DesignRef: "DESIGN.md §3 C15",
 	})
+	decodeCorpus := "Corpus engine: every registered layer type (enumerated at run time) x inputs derived from (1) fixtures harvested from the repository itself - every []byte literal of the *_test.go files (go/parser) and every packet of the capture files under /repo, each decoded once so that the suffix starting at every layer becomes a seed for that layer's type - (2) packets of the core stacks built byte by byte (Ethernet/Dot1Q/IPv4+options/IPv6+hop-by-hop/TCP with every option kind incl. the 9 MPTCP subtypes/UDP/DNS/ICMPv4/ICMPv6/GRE/SCTP/VXLAN/ARP) and (3) mutators: every prefix length, bit flips, byte substitutions {0,1,0x7f,0x80,0xfe,0xff}, length-looking byte +-{1,2,4,8}, 16/32-bit boundary values in both byte orders, splices, block repeats, extensions, double mutations, plus all-0x00/0xff and random strings."
+	add(Spec{
+		PropSpec: vlib.PropSpec{
+			ID: "C19", Level: "exploration",
+			Rule: decodeCorpus + " Each (type, input) goes through three unrecovered entry points: NewPacket with SkipDecodeRecovery (Lazy x DecodeStreamsAsDatagrams) + Layers(); DecodeFromBytes of every type implementing DecodingLayer (discovered by reflection), on a fresh and on a previously used object, followed by NextLayerType/CanDecode/LayerPayload; a DecodingLayerParser over all known decoding layers with IgnorePanic. Any panic, fatal error or CPU/heap runaway is a violation; a returned error is success. Non-trivial = input at least as long as the shortest input on which that type's DecodeFromBytes returned nil in this run; distinct by (type, input hash).",
+			Assumptions: []string{"checkptr instrumentation is on (-gcflags=all=-d=checkptr)", "types for which no input ever decoded successfully are listed in the evidence as never entered"},
+			Phases: []vlib.Phase{
+				{Name: "norecover", Bin: "vchild", Quick: 16, Thorough: 16},
+			},
+			Require: []string{"prefixes_enumerated", "corpus_layer_types_with_fixture_seeds"},
+		},
+		LevelText: "Runtime monitoring with a crash monitor, CPU/heap watchdog and checkptr around the real decoders driven through their three unrecovered entry points on a fixture-derived, mutation-based corpus for every registered layer type.",
+		LevelNote: trusted,
+		Technique: "runtime monitoring: crash/CPU/heap monitors + checkptr on generated hostile inputs (fixture-seeded mutation, exhaustive truncation)",
+		DesignRef: "DESIGN.md §3 C19",
+	})
 }
